@@ -183,7 +183,8 @@ class FakeS3:
             tok = self.pages.pop(0) if self.pages else None
             self.current_token = tok
             xml = '<ListBucketResult xmlns="http://s3.amazonaws.com/doc/2006-03-01/">'
-            xml += '<Contents><Key>k%d</Key></Contents>' % len(self.captured)
+            if not getattr(self, 'plain_listing', False):
+                xml += '<Contents><Key>k%d</Key></Contents>' % len(self.captured)
             if tok is None:
                 xml += '<IsTruncated>false</IsTruncated>'
             else:
@@ -280,6 +281,12 @@ async def run_ops(sc, fake, clock):
         else:
             be = s3c.S3Compatible(cfg['bucket'], key_id=cfg['key_id'], access_key=cfg['access_key'], region=cfg['region'],
                                   host=cfg['host'], scheme=cfg['scheme'])
+        if 'command' in sc:
+            try:
+                await run_command(sc, be, fake)
+            finally:
+                await be.close()
+            return
         try:
             for op in sc['ops']:
                 start = len(fake.captured)
@@ -314,6 +321,48 @@ async def run_ops(sc, fake, clock):
                     fake.captured[i]['nth'] = i - start
         finally:
             await be.close()
+
+
+async def run_command(sc, be, fake):
+    """a whole rate-limited command of Repository over the real S3 adapter: what it puts on the wire is judged like the rest"""
+    import random, shutil, tempfile
+    from pathlib import Path
+    from replicat.repository import Repository
+    fake.plain_listing = True
+    r = random.Random(sc['seed'])
+    d = Path(tempfile.mkdtemp(prefix='verif-c16cmd-', dir=os.environ.get('VERIF_SCRATCH', '/var/tmp')))
+    cwd = os.getcwd()
+    try:
+        (d / 'src').mkdir()
+        paths = []
+        for i, sz in enumerate(sc['sizes']):
+            p = d / 'src' / f'f{i:03d}'
+            p.write_bytes(r.randbytes(sz))
+            paths.append(p)
+        os.chdir(d)
+        repo = Repository(be, concurrent=sc['concurrent'], quiet=True, cache_directory=None)
+        with contextlib.redirect_stdout(io.StringIO()), contextlib.redirect_stderr(io.StringIO()), contextlib.suppress(httpx.HTTPError):
+            if sc['command'] == 'upload_objects':
+                await repo.upload_objects(paths, rate_limit=sc['rate_limit'])
+            else:
+                await repo.init(settings={'encryption': None, 'chunking': {'min_length': 64, 'max_length': 128}})
+                await repo.snapshot(paths=[d / 'src'], rate_limit=sc['rate_limit'])
+    finally:
+        os.chdir(cwd)
+        shutil.rmtree(d, ignore_errors=True)
+        for rec in fake.captured:
+            rec.setdefault('op', [sc['command'], f'rate_limit={sc["rate_limit"]}, concurrent={sc["concurrent"]}'])
+            rec.setdefault('nth', 0)
+
+
+def gen_command_scenario(rng):
+    """upload_objects / snapshot with a rate limit, from generous down to fewer bytes per second than 16 x the number of
+    connections (the commands derive the transfer chunk size from rate_limit // (16 * concurrent))"""
+    n = rng.choice([1, 2, 5, 16, 64])
+    L = rng.choice([1, 7, 16 * n - 1, 16 * n, 16 * n + 1, 64, 100, 1000, 5000, 10 ** 6])
+    sizes = [rng.choice([0, 1, 2, 17, 100, 300]) for _ in range(rng.randint(1, 5))]
+    return {'cfg': gen_cfg(rng), 'command': rng.choice(['upload_objects', 'upload_objects', 'snapshot']), 'rate_limit': max(L, 1), 'concurrent': n,
+            'sizes': sizes, 'seed': rng.randrange(2 ** 32), 'ops': [], 'stamps': gen_stamps(rng, 60)}
 
 
 def has_dot_segment(name):
@@ -440,7 +489,8 @@ def gen_token(rng):
 HOSTS = [('s3.example.com', 'https'), ('minio.internal:9000', 'http'), ('127.0.0.1:9000', 'http'), ('[::1]:9000', 'http'),
          ('localhost:8080', 'http'), ('storage.example.org:8443', 'https'), ('s3.eu-central-1.wasabisys.com', 'https'),
          ('localhost:80', 'http'), ('example.com:443', 'https'), ('S3.Example.COM', 'https'), ('objects.example.net:443', 'http')]
-REGIONS = ['us-east-1', 'eu-central-1', 'ap-southeast-2', 'us-gov-west-1', 'garage', 'auto', 'cn-north-1']
+REGIONS = ['us-east-1', 'eu-central-1', 'ap-southeast-2', 'us-gov-west-1', 'garage', 'auto', 'cn-north-1',
+           'EU-Central-1', 'US-EAST-1', 'NYC3', 'Garage_Home', 'fr-par']     # as configured: any spelling, any case
 BOUNDARY_STAMPS = [(2023, 12, 31, 23, 59, 59), (2024, 1, 1, 0, 0, 0), (2024, 2, 29, 0, 0, 0), (2024, 2, 29, 23, 59, 59), (2024, 3, 1, 0, 0, 0),
                    (1999, 12, 31, 23, 59, 59), (2000, 1, 1, 0, 0, 0), (2038, 1, 19, 3, 14, 7), (2026, 9, 30, 12, 0, 0), (2025, 1, 5, 9, 5, 3),
                    (9999, 12, 31, 23, 59, 59), (1970, 1, 1, 0, 0, 0), (2026, 10, 1, 0, 0, 0), (2026, 9, 30, 23, 59, 59)]
@@ -554,6 +604,8 @@ def run(ctx) -> Report:
             rep.sample({'cfg': sc['cfg'], 'ops': [[o[0], o[1]] + ([o[2]] if o[0] == 'list_files' else []) for o in sc['ops'][:4]], 'stamps': sc['stamps'][:2]})
     for _ in range(ctx.scale(2, 10)):
         check_scenario(gen_dot_probe(rng), rep, None)
+    for _ in range(ctx.scale(25, 250)):
+        check_scenario(gen_command_scenario(rng), rep, None)
     run_model(queue[:ctx.scale(800, 6000)], rep)
     return rep
 
